@@ -29,6 +29,8 @@ From PV.Model Require Nlink.
 From PV.Proofs Require NlinkProofs.
 From PV.Model Require RREntries RRWalk.
 From PV.Proofs Require RREntriesProofs RRWalkProofs RRSLProofs.
+From PV.Model Require RRPlace.
+From PV.Proofs Require RRPlaceSLProofs RRPlaceProofs RRPlaceProofs2 RRPlaceCases.
 Import ListNotations.
 Local Open Scope Z_scope.
 
@@ -129,3 +131,58 @@ Theorem C08_tf_roundtrip : forall t rest, RREntries.tf_ok t = true ->
   RREntries.len_tf (RREntries.tf_flags t) =
     5 + RREntries.tf_each (RREntries.tf_flags t) * RREntriesProofs.count_set (RREntries.tf_flags t) RREntries.tf_indices.
 Proof. exact RREntriesProofs.tf_roundtrip. Qed.
+
+(* ---- entry placement: Model/RRPlace.v -------------------------------------------------------------------------
+   (hand model of RockRidge.new / _assign_entries: which System Use entries are created for a record and whether
+   each goes into the directory record or into the continuation area, for every name, symlink target, version,
+   XA and relocation flag; two passes, the second with a CE entry; tied by rrplaceleaf.py on a boundary grid of real
+   RockRidge.new calls, byte for byte).  For ALL inputs: *)
+Section RRPlaceStatements.
+Import Prim Codec RREntries RRWalk RRPlace RRPlaceSLProofs RRPlaceProofs RRPlaceProofs2 RRPlaceCases.
+Local Open Scope Z_scope.
+
+Theorem C08_placement_fits_the_record : forall i r,
+  place i = Some r -> input_ok i r ->
+  exists bd, record_entries (p_v i) (pl_dr r) = Some bd /\
+    p_dr_len i + zlen bd = pl_len r /\ pl_len r <= ALLOWED_DR_SIZE /\
+    p_dr_len i + zlen bd <= new_dr_len_of r <= ALLOWED_DR_SIZE /\ new_dr_len_of r mod 2 = 0.
+Proof. exact RRPlaceProofs.place_dr_fits. Qed.
+
+Theorem C08_ce_entry_length_is_the_area : forall i r c,
+  place i = Some r -> input_ok i r -> ce_record (pl_dr r) = Some c ->
+  exists bc, record_entries (p_v i) (pl_ce r) = Some bc /\ c = mk_ce 0 0 (zlen bc) /\ pl_celen r = zlen bc
+             /\ ce_record (pl_ce r) = None.
+Proof. exact RRPlaceProofs.place_ce_len. Qed.
+
+Theorem C08_placed_name_reads_back : forall i r,
+  place i = Some r -> 0 <= p_dr_len i -> read_name r = p_name i.
+Proof. exact RRPlaceProofs2.place_reads_name. Qed.
+
+Theorem C08_placed_target_reads_back_partial : forall i r t,
+  place i = Some r -> 0 <= p_dr_len i ->
+  p_target i = Some t -> t <> [] ->
+  is_some (ce_record (pl_dr r)) = true \/ sl_records (pl_ce r) = [] ->
+  LongNames.no_dot_names t = true -> read_target r = t.
+Proof. exact RRPlaceProofs2.place_complete_sl_partial. Qed.
+
+Theorem C08_no_continuation_iff_first_fit : forall i r,
+  place i = Some r -> 0 <= p_dr_len i ->
+  (ce_record (pl_dr r) = None <-> first_fit i = true).
+Proof. exact RRPlaceProofs2.place_first_pass_iff. Qed.
+
+Theorem C08_placement_total : forall i,
+  p_v i <> V_unset -> dates_ok i = true -> 0 <= p_dr_len i ->
+  p_dr_len i + len_ce <= ALLOWED_DR_SIZE -> exists r, place i = Some r.
+Proof. exact RRPlaceProofs2.place_total. Qed.
+
+Theorem C08_placed_target_truncated_refuted :
+  exists i r t, place i = Some r /\ p_target i = Some t /\
+  LongNames.no_dot_names t = true /\ read_target r = firstn 12 t /\ read_target r <> t.
+Proof. exact RRPlaceCases.place_complete_sl_trunc_refuted. Qed.
+
+Theorem C08_placed_target_dot_cut_refuted :
+  exists i r t, place i = Some r /\ input_ok i r /\ p_target i = Some t /\
+  is_some (ce_record (pl_dr r)) = true /\ LongNames.no_dot_names t = false /\
+  read_target r = [47; 46; 47; 98] /\ read_target r <> t /\ read_name r = p_name i.
+Proof. exact RRPlaceCases.place_complete_sl_dot_refuted. Qed.
+End RRPlaceStatements.
